@@ -33,7 +33,7 @@ CHECKS = {
         "success of make_readable(mode, premium) of this pair with the colour written and the colour reported being the API's colour, 'needs attention' listed and nothing written; the @media/@supports branch descends only there, once, forwarding every setting, and rebuilds the content; the declaration scan ends with the LAST color / background-color declaration for lists of any length (loop invariant over a recursive spec function). The file-level clause quantifies over stylesheets as "
         "interpreted by tinycss2 (a proof would be about a model of that library): checked on a generated corpus (every colour spelling, random / light colours, custom properties chained / with fallback / undefined / shared / "
         "redefined under the CSS cascade, !important, repeated declarations, same selector repeated, nesting <= 3, carry-through constructs, threshold-band pairs, a deterministic core x all 16 settings) - counts vs an independent "
-        "per-rule classification, report vs written file vs Python API vs WCAG oracle, attention rules unchanged. Three defects repaired, two recorded as known findings.",
+        "per-rule classification, report vs written file vs Python API vs WCAG oracle, attention rules unchanged. Four defects repaired (root-rule write-back, var() with fallback, :root-vs-html cascade, unparsed declarations), one recorded as known finding (shared custom property).",
    note=TB + "assumed contracts: tinycss2-facing helpers total; API facts from C01/C06/C14/C15; shape of the `variables` map. tinycss2 as trusted reader; file-level part bounded to the corpus; known findings matched by (failure kind | trigger).", ref='§8 C08, §11'),
  'C09': dict(cat='other', tech='frame proof by the effect checker on the real ASTs + z3 string lemma (engine C) for the files touched; contract-based deductive verification of the declaration writes on the mechanically extracted per-rule and at-rule blocks (engine A, z3); bounded structural diff of input vs output on a stylesheet corpus (engine E)',
    text="proved: the only writes of the package are open(output_path,'w') in main / generate_report / to_html_bulk, output_path = parent/(stem+'_cm'+suffix) assigned once, the report path is the literal default, the only read is the "
